@@ -402,3 +402,123 @@ Theorem C13_validator_code_cases_match_source :
   forallb (fun q => imm_flags (fst q) =? snd q) x86_imm_ladder_points = true.
 Proof. exact (conj x86_mem_size_cases_ok x86_imm_ladder_ok). Qed.
 Print Assumptions C13_validator_code_cases_match_source.
+
+From Coq Require Import ZArith.
+Local Open Scope N_scope.
+(* ================================================================== round 6: the translation hypotheses of the row-level theorem discharged operand by operand *)
+
+(* ---- the row-level acceptance WITHOUT hypotheses about the translation state: for a database row contained in the tables and a mode it lists, if every operand is
+   an acceptable instance of the corresponding explicit row operand (operand_ok: decidable, one operand at a time - it translates, fits the kind, names no register
+   above 7 and is an r64 only in 64-bit mode), the undecorated instruction validates. Completeness direction of C13_validate_accept_has_signature. *)
+Theorem C13_db_row_validates_operandwise : forall row, In row x86_db_rows ->
+  forall zq x64 ops iflags avx sidx scnt,
+  nth (N.to_nat (dr_inst row)) (vt_inst x86_vtables) (0, 0, 0, 0) = (iflags, avx, sidx, scnt) ->
+  test (dr_mode row) (mode_bit x64) = true ->
+  operands_ok x86_vtables x64 iflags avx (explicit_ops (dr_ops row)) ops = true ->
+  validate x86_vtables zq x64 false {| vi_id := dr_inst row; vi_options := 0; vi_extra_type := 0; vi_extra_id := 0 |} ops = E_Ok.
+Proof.
+  exact (fun row Hin zq x64 ops iflags avx sidx scnt =>
+    db_row_validates_operandwise x86_vtables zq x64 row ops iflags avx sidx scnt x86_sigs_wf
+      (forallb_In _ (row_present x86_vtables) x86_db_rows x86_db_rows_present row Hin)).
+Qed.
+Print Assumptions C13_db_row_validates_operandwise.
+
+(* non-vacuity: the generated representatives of every row meet the operand-wise premise *)
+Example C13_db_row_validates_operandwise_premise : forall row, In row x86_db_rows -> rep_operands_ok_both x86_vtables row = true.
+Proof. exact (forallb_In _ (rep_operands_ok_both x86_vtables) x86_db_rows x86_rep_operands_ok). Qed.
+
+(* ---- families of acceptable operands (not single representatives): every register 0..7 of each of the 16 register classes (as class operand and as fixed register),
+   and - for ALL displacements - every memory operand with a mode-sized GP base 0..7, no index, default segment, of a size validate() knows, also where the row
+   demands a base-only address (then the displacement must be 0 mod 2^32); every immediate of an immediate kind it belongs to; a label for a rel8/rel32 kind *)
+Theorem C13_standard_registers_are_acceptable : standard_registers_ok x86_vtables = true.
+Proof. exact x86_standard_registers_ok. Qed.
+Print Assumptions C13_standard_registers_are_acceptable.
+
+Theorem C13_plain_memory_operands_are_acceptable : forall (x64 : bool) iflags avx sz sf bid (off : Z) (need_mb : bool),
+  mem_size_flag sz = Some sf -> bid < 8 -> (need_mb = true -> (off mod 4294967296 = 0)%Z) ->
+  operand_ok x86_vtables x64 iflags avx (N.lor sf (if need_mb then OF_FlagMemBase else 0), 0, false)
+             (OMem sz (if x64 then RT_Gp64 else RT_Gp32) bid 0 0 off 0 0 false) = true.
+Proof.
+  exact (fun x64 iflags avx sz sf bid off need_mb SZ B M =>
+    operand_ok_plain_mem x86_vtables x64 iflags avx sz sf bid off need_mb SZ B
+      (match x64 as b return N.testbit (vd_base_regs (if b then vt_vd64 x86_vtables else vt_vd86 x86_vtables)) (if b then RT_Gp64 else RT_Gp32) = true with
+       | true => proj1 (andb_prop _ _ x86_mem_base_types_ok) | false => proj2 (andb_prop _ _ x86_mem_base_types_ok) end) M).
+Qed.
+Print Assumptions C13_plain_memory_operands_are_acceptable.
+
+Theorem C13_immediates_and_labels_are_acceptable : forall T x64 iflags avx need,
+  test need OF_RegMask = false -> test need OF_FlagMemBase = false ->
+  (forall v, test (N.land (N.land (imm_flags v) MASK56) need) OF_OpMask = true -> operand_ok T x64 iflags avx (need, 0, false) (OImm v) = true) /\
+  (test (N.land (N.land (N.lor OF_Rel8 OF_Rel32) MASK56) need) OF_OpMask = true -> operand_ok T x64 iflags avx (need, 0, false) OLabel = true).
+Proof.
+  exact (fun T x64 iflags avx need NR NM =>
+    conj (fun v F => operand_ok_imm T x64 iflags avx v need NR NM F) (fun F => operand_ok_label T x64 iflags avx need NR NM F)).
+Qed.
+Print Assumptions C13_immediates_and_labels_are_acceptable.
+
+(* ---- COMPLETENESS for standard operands, no hypothesis about the validator left: for every database row contained in the tables, every mode it lists and EVERY operand
+   list whose operands are standard instances of the row's explicit operands (std_instance: a purely syntactic condition - register 0..7 of the named class or the fixed
+   register; [mode-sized GP base 0..7 + any displacement] of the named size; an immediate belonging to a named immediate kind; a label), the undecorated instruction validates *)
+Theorem C13_db_row_validates_standard : forall row, In row x86_db_rows ->
+  forall zq x64 ops, test (dr_mode row) (mode_bit x64) = true ->
+  std_instances x64 (explicit_ops (dr_ops row)) ops = true ->
+  validate x86_vtables zq x64 false {| vi_id := dr_inst row; vi_options := 0; vi_extra_type := 0; vi_extra_id := 0 |} ops = E_Ok.
+Proof.
+  exact (fun row Hin zq x64 ops =>
+    db_row_validates_standard x86_vtables zq x64 row ops x86_sigs_wf
+      (forallb_In _ (row_present x86_vtables) x86_db_rows x86_db_rows_present row Hin) x86_standard_registers_ok x86_mem_base_types_ok).
+Qed.
+Print Assumptions C13_db_row_validates_standard.
+
+(* non-vacuity: for every row without a vector-index (vsib) memory operand the generated representatives are standard instances in every mode of the row *)
+Example C13_db_row_validates_standard_premise : forall row, In row x86_db_rows ->
+  rep_is_standard_both row || existsb (fun o => test (fst (fst o)) OF_VmMask) (dr_ops row) = true.
+Proof. exact (forallb_In _ _ x86_db_rows x86_rep_is_standard). Qed.
+
+(* ---- ... and under a {k} mask: for every row of an instruction to which the database grants {k} (its entry of x86_db_decorations names kEvex and the K flag), every
+   standard operand list and every mask register k1..k7, the masked instruction validates *)
+Theorem C13_db_row_validates_standard_masked : forall row, In row x86_db_rows ->
+  forall nif naf, In (dr_inst row, nif, naf) x86_db_decorations -> test nif IF_Evex = true -> test naf AF_K = true ->
+  forall zq x64 ops kid, 1 <= kid <= 7 -> test (dr_mode row) (mode_bit x64) = true ->
+  std_instances x64 (explicit_ops (dr_ops row)) ops = true ->
+  validate x86_vtables zq x64 false {| vi_id := dr_inst row; vi_options := 0; vi_extra_type := RT_Mask; vi_extra_id := kid |} ops = E_Ok.
+Proof.
+  exact (fun row Hin nif naf Hd EV K zq x64 ops kid KID M ST =>
+    db_row_validates_standard_masked x86_vtables zq x64 row ops kid nif naf x86_sigs_wf
+      (forallb_In _ (row_present x86_vtables) x86_db_rows x86_db_rows_present row Hin) x86_standard_registers_ok x86_mem_base_types_ok
+      (forallb_In _ (decor_present x86_vtables) x86_db_decorations x86_db_decorations_present _ Hd) EV K KID M ST).
+Qed.
+Print Assumptions C13_db_row_validates_standard_masked.
+
+Example C13_db_row_validates_standard_masked_nonvacuous :
+  existsb (fun row => existsb (fun dc => (fst (fst dc) =? dr_inst row) && test (snd (fst dc)) IF_Evex && test (snd dc) AF_K) x86_db_decorations) x86_db_rows = true.
+Proof. exact x86_masked_rows_exist. Qed.
+
+(* ---- soundness direction, composed (for ALL calls): whenever validate accepts an instruction word with operands, the operands translated without error and were matched by a
+   signature record of the instruction that - unless it is one of the 14 vendored exceptions - admits a database row of this instruction sharing a mode with the record:
+   nothing is accepted on the strength of a record the database does not know *)
+Theorem C13_accepted_call_has_database_origin : forall zq x64 virt inst ops, 1 <= vi_id inst ->
+  validate x86_vtables zq x64 virt inst ops = E_Ok ->
+  exists iflags avx sidx scnt, nth (N.to_nat (vi_id inst)) (vt_inst x86_vtables) (0, 0, 0, 0) = (iflags, avx, sidx, scnt) /\
+    (scnt = 0 \/ exists j s st rest,
+       nth_error (inst_sigs x86_vtables sidx scnt) j = Some s /\
+       xlat_all x86_vtables x64 virt iflags avx ops init_xstate = inr (st, rest) /\
+       match_sig x86_vtables zq (mode_bit x64) (xs_sigs st) s = Some false /\
+       (pair_in (vi_id inst, N.of_nat j) x86_records_without_origin = true \/ sig_origin x86_vtables x86_db_rows (vi_id inst) s = true)).
+Proof. exact (fun zq x64 virt inst ops => accepted_call_has_origin x86_vtables x86_db_rows x86_records_without_origin zq x64 virt inst ops x86_records_have_origin). Qed.
+Print Assumptions C13_accepted_call_has_database_origin.
+
+(* ---- ... and under a LOCK prefix: for every row of an instruction to which the database grants lock (its decoration entry names kLock), every standard operand list whose
+   first operand is memory validates with the lock option *)
+Theorem C13_db_row_validates_standard_lock : forall row, In row x86_db_rows ->
+  forall nif naf, In (dr_inst row, nif, naf) x86_db_decorations -> test nif IF_Lock = true ->
+  forall zq x64 ops, first_is_mem ops = true -> test (dr_mode row) (mode_bit x64) = true ->
+  std_instances x64 (explicit_ops (dr_ops row)) ops = true ->
+  validate x86_vtables zq x64 false {| vi_id := dr_inst row; vi_options := OPT_Lock; vi_extra_type := 0; vi_extra_id := 0 |} ops = E_Ok.
+Proof.
+  exact (fun row Hin nif naf Hd LK zq x64 ops FM M ST =>
+    db_row_validates_standard_lock x86_vtables zq x64 row ops nif naf x86_sigs_wf
+      (forallb_In _ (row_present x86_vtables) x86_db_rows x86_db_rows_present row Hin) x86_standard_registers_ok x86_mem_base_types_ok
+      (forallb_In _ (decor_present x86_vtables) x86_db_decorations x86_db_decorations_present _ Hd) LK FM M ST).
+Qed.
+Print Assumptions C13_db_row_validates_standard_lock.
